@@ -29,6 +29,9 @@ type hProvider struct {
 	items    int   // items to deliver in Run mode
 	runDone  bool
 	failed   bool // Run actually returned runErr
+	// failOnStop: the ammo source delivers everything, signals the end of ammo, and fails when it
+	// is shut down (e.g. closing the ammo file fails): Run returns runErr once ctx is done
+	failOnStop bool
 }
 
 func newHProviderFilled(m int) *hProvider {
@@ -63,7 +66,27 @@ func (p *hProvider) Release(a core.Ammo) {
 // Run delivers p.items ammo, then closes the queue (clean end of ammo); honours ctx.
 func (p *hProvider) Run(ctx context.Context, _ core.ProviderDeps) error {
 	defer func() { p.runDone = true }()
-	defer close(p.q)
+	closed := false
+	defer func() {
+		if !closed {
+			close(p.q)
+		}
+	}()
+	if p.failOnStop {
+		for i := 0; i < p.items; i++ {
+			select {
+			case p.q <- &hAmmo{id: i}:
+			case <-ctx.Done():
+				p.failed = true
+				return p.runErr
+			}
+		}
+		closed = true
+		close(p.q)
+		<-ctx.Done()
+		p.failed = true
+		return p.runErr
+	}
 	for i := 0; i < p.items; i++ {
 		if p.failAt == i {
 			p.failed = true
